@@ -468,4 +468,71 @@ def quoteNode (props : List SProp) (ops : ElOps String) (splitN : String → Str
   | some (.error e, w') => (w', some e)
   | some (.ok s, w') => (w' ++ [.setTagVal i s], none)
 
+/-! ### the expression stage -/
+
+/-- expression_tag_aware_post_processors.go:42-56: compile, run, format — the first failure is the answer -/
+def exprCb (compile : String → Except String Nat) (runP : Nat → Except String Nat) (fmtAny : Nat → Except String String)
+    (c : String) (w : SW) : Except String String × SW :=
+  match compile c with
+  | .error e => (.error e, w)
+  | .ok p =>
+    match runP p with
+    | .error e => (.error e, w)
+    | .ok r => (fmtAny r, w)
+
+def encNatRes : Except String Nat → Nat → Val
+  | .ok a, k => .tuple [.ref a k, .nil]
+  | .error e, _ => .tuple [.nil, .str e]
+
+def exprFn (props : List SProp) (ops : ElOps String) (compile : String → Except String Nat) (runP : Nat → Except String Nat)
+    (fmtAny : Nat → Except String String) : String → List Val → SW → Option (Val × SW)
+  | "self.el.MatchString", [.str s], w => some (.bool (!(ops.find s == "")), w)
+  | ".TagVal", [.ref i 20], w => some (.str (tagValNow props w i), w)
+  | "expr.Compile", [.str c], w => some (encNatRes (compile c) 33, w)
+  | "expr.Run", [.ref p 33, .nil], w => some (encNatRes (runP p) 30, w)
+  | "strconv2.FormatAny", [.ref a 30], w => some (encStrRes (fmtAny a), w)
+  | ".set:TagVal", [.ref i 20, .str s], w => some (.tuple [], w ++ [.setTagVal i s])
+  | "errors.Wrapf", e :: _, w => some (e, w)
+  | "errors.WithMessagef", e :: _, w => some (e, w)
+  | _, _, _ => none
+
+section xeqs
+variable (props : List SProp) (ops : ElOps String) (compile : String → Except String Nat) (runP : Nat → Except String Nat)
+  (fmtAny : Nat → Except String String)
+theorem exprFn_Match (s : String) (w : SW) : exprFn props ops compile runP fmtAny "self.el.MatchString" [.str s] w =
+    some (.bool (!(ops.find s == "")), w) := rfl
+theorem exprFn_TagVal (i : Nat) (w : SW) : exprFn props ops compile runP fmtAny ".TagVal" [.ref i 20] w =
+    some (.str (tagValNow props w i), w) := rfl
+theorem exprFn_Compile (c : String) (w : SW) : exprFn props ops compile runP fmtAny "expr.Compile" [.str c] w =
+    some (encNatRes (compile c) 33, w) := rfl
+theorem exprFn_Run (p : Nat) (w : SW) : exprFn props ops compile runP fmtAny "expr.Run" [.ref p 33, .nil] w =
+    some (encNatRes (runP p) 30, w) := rfl
+theorem exprFn_FormatAny (a : Nat) (w : SW) : exprFn props ops compile runP fmtAny "strconv2.FormatAny" [.ref a 30] w =
+    some (encStrRes (fmtAny a), w) := rfl
+theorem exprFn_setTagVal (i : Nat) (s : String) (w : SW) :
+    exprFn props ops compile runP fmtAny ".set:TagVal" [.ref i 20, .str s] w = some (.tuple [], w ++ [.setTagVal i s]) := rfl
+theorem exprFn_Wrapf (e : Val) (args : List Val) (w : SW) :
+    exprFn props ops compile runP fmtAny "errors.Wrapf" (e :: args) w = some (e, w) := rfl
+theorem exprFn_WithMessagef (e : Val) (args : List Val) (w : SW) :
+    exprFn props ops compile runP fmtAny "errors.WithMessagef" (e :: args) w = some (e, w) := rfl
+end xeqs
+
+def exprPrims (props : List SProp) (ops : ElOps String) (compile : String → Except String Nat) (runP : Nat → Except String Nat)
+    (fmtAny : Nat → Except String String) (bound fuel : Nat) : Prims SW :=
+  { fn := exprFn props ops compile runP fmtAny
+    hfn := fun f args k w =>
+      match f, args with
+      | "self.el.ReplaceAllContent", [.str s] => elLoopK ops k bound fuel 0 s w
+      | _, _ => none }
+
+/-- the expression stage on node i: works on TagVal AS IT IS NOW (what the quote stage left there) -/
+def exprNode (props : List SProp) (ops : ElOps String) (compile : String → Except String Nat) (runP : Nat → Except String Nat)
+    (fmtAny : Nat → Except String String) (bound fuel : Nat) (i : Nat) (w : SW) : SW × Option String :=
+  let tv := tagValNow props w i
+  if ops.find tv == "" then (w, none) else
+  match elLoop ops (exprCb compile runP fmtAny) "unresolved" bound fuel 0 tv w with
+  | none => (w, some "out of fuel")
+  | some (.error e, w') => (w', some e)
+  | some (.ok s, w') => (w' ++ [.setTagVal i s], none)
+
 end Ioc.Sem
